@@ -290,10 +290,24 @@ Print Assumptions C06_const_shift_agrees.
 (* int / bool / Verilog-string operands ARE the equivalent Const (as_wires builds exactly that
    Const), and the Const has the documented value and width *)
 Theorem C06_operand_kinds_agree : forall f (c : operand) x,
-  (forall a, c <> OWire a) -> (forall o bw s, c <> OConst o bw s) ->
+  (forall a, c <> OWire a) -> (forall o bw s, c <> OConst o bw s) -> (forall a, c <> OLazy a) ->
   lift2 f x c = lift2 f x (OConst c None false).
 Proof. exact KindsProofs.operand_kinds_agree. Qed.
 Print Assumptions C06_operand_kinds_agree.
+
+(* a not-yet-materialised memory/ROM read mem[addr] as an operand is the read-data wire, on
+   either side, operand order as written (so mem[a] - b is (mem[a] - b) mod 2^(max+1)) *)
+Theorem C06_lazy_read_is_wire : forall f a y,
+  lift2 f (OLazy a) y = lift2 f (OWire a) y /\ lift2 f y (OLazy a) = lift2 f y (OWire a) /\
+  lift2s f (OLazy a) y = lift2s f (OWire a) y /\ lift2s f y (OLazy a) = lift2s f y (OWire a).
+Proof. exact KindsProofs.lazy_read_is_wire. Qed.
+Print Assumptions C06_lazy_read_is_wire.
+
+Theorem C06_lazy_sub : forall a b, wf a -> wf b ->
+  lift2 op_sub (OLazy a) (OWire b)
+  = Some ((val a - val b) mod 2 ^ (Z.max (wd a) (wd b) + 1), Z.max (wd a) (wd b) + 1).
+Proof. exact KindsProofs.lazy_sub. Qed.
+Print Assumptions C06_lazy_sub.
 
 Theorem C06_const_int_unsigned : forall v, 0 <= v ->
   exists w, Ops.convert_int v None false = Some (v, w) /\ wf (v, w) /\ (forall w', 1 <= w' -> v < 2 ^ w' -> w <= w').
